@@ -54,10 +54,23 @@ Definition req_ok (arg : sx) : sx :=
   | _ => bad
   end.
 
+(* 803: the MicroDVD document the writer model prints for cues with text lines *)
+Definition sx_tcue (x : sx) : option (Z * Z * list str) :=
+  match x with
+  | SL [SI a; SI b; ls] => match sx_listof sx_str ls with Some ls => Some (a, b, ls) | None => None end
+  | _ => None
+  end.
+Definition req_mdvd_write (arg : sx) : sx :=
+  match sx_listof sx_tcue arg with
+  | Some cs => SS (mdvd_write cs)
+  | None => bad
+  end.
+
 Definition dispatch (code : Z) (arg : sx) : option sx :=
   match code with
   | 800 => Some (req_trace arg)
   | 801 => Some (req_expected arg)
   | 802 => Some (req_ok arg)
+  | 803 => Some (req_mdvd_write arg)
   | _ => None
   end.
